@@ -108,6 +108,8 @@ def run(ctx):
     ctx.do(rule_deepcopy)
     from . import C15 as _C15v
     ctx.do(_C15v.rule_value_object, rule_id="C13.deepcopy")
+    from .pitfalls import rule_no_alias_then_mutate
+    ctx.do(rule_no_alias_then_mutate, "C13.no-param-mutation", ("stix2.",))
     from .hidden_state import rule_no_hidden_state
     ctx.do(rule_no_hidden_state, "C13.history-independence")
 
